@@ -82,17 +82,50 @@ func astImplementors(c *Ctx, iface string) []string {
 // constStringArgs collects the constant string passed as argument `idx` to calls named `callee` in fn (and nested closures).
 func constStringArgs(fn *ssa.Function, callee string, idx int) map[string]bool {
 	out := map[string]bool{}
+	constStringArgsInto(fn, callee, idx, 0, map[*ssa.Function]bool{}, out)
+	return out
+}
+
+// constStringArgsInto collects the constant strings passed as argument idx of `callee` by fn, its closures and the
+// same-package functions it calls (three levels): a binding moved into a helper is still a binding. Where a helper
+// forwards one of its own parameters as that argument (defineRequestBuiltin(name) -> DefineBuiltin(name)), the
+// constants at the helper's call sites count.
+func constStringArgsInto(fn *ssa.Function, callee string, idx int, depth int, seen map[*ssa.Function]bool, out map[string]bool) {
+	if fn == nil || seen[fn] || depth > 3 || len(fn.Blocks) == 0 {
+		return
+	}
+	seen[fn] = true
 	for _, f := range withAnon(fn) {
 		eachCall(f, func(call ssa.CallInstruction) {
-			if callName(call) != callee || idx >= len(call.Common().Args) {
+			if callName(call) == callee {
+				if idx < len(call.Common().Args) {
+					if s, ok := constString(call.Common().Args[idx]); ok {
+						out[s] = true
+					}
+				}
 				return
 			}
-			if s, ok := constString(call.Common().Args[idx]); ok {
-				out[s] = true
+			sf := staticFn(call)
+			if sf == nil || sf.Pkg == nil || topParent(fn).Pkg == nil || sf.Pkg != topParent(fn).Pkg {
+				return
 			}
+			// a forwarder: sf passes its parameter j on as argument idx of callee
+			for j, p := range sf.Params {
+				forwards := false
+				eachCall(sf, func(c2 ssa.CallInstruction) {
+					if callName(c2) == callee && idx < len(c2.Common().Args) && c2.Common().Args[idx] == ssa.Value(p) {
+						forwards = true
+					}
+				})
+				if forwards && j < len(call.Common().Args) {
+					if s, ok := constString(call.Common().Args[j]); ok {
+						out[s] = true
+					}
+				}
+			}
+			constStringArgsInto(sf, callee, idx, depth+1, seen, out)
 		})
 	}
-	return out
 }
 
 func runC02(c *Ctx) {
